@@ -6,13 +6,28 @@ from .runner import Result
 NSHARDS = 32
 
 
+def near_grid(L):
+    """time lattice 0..L plus near-tie companions (2^-30 next to the interior
+    lattice points): spike times that are close to, but not equal to, each other
+    or a lattice point"""
+    from .history import near
+    return near(L)
+
+
+def _regime_size(N, rg):
+    if rg[0] == "near":
+        return sum((1 << len(near_grid(L))) ** N for L in range(rg[-2], rg[-1] + 1))
+    return sum(lattice.count_states(N, k, rg[1] if rg[0] == "bounded" else None)
+               for k in range(rg[-2], rg[-1] + 1))
+
+
 def regime_tasks(N, regimes, backends, nshards=NSHARDS, extra=None):
-    """regimes: list of ('dense', kmin, kmax) / ('bounded', d, kmin, kmax)."""
+    """regimes: list of ('dense', kmin, kmax) / ('bounded', d, kmin, kmax) /
+    ('near', Lmin, Lmax)."""
     tasks = []
     for be in backends:
         for rg in regimes:
-            size = sum(lattice.count_states(N, k, rg[1] if rg[0] == "bounded" else None)
-                       for k in range(rg[-2], rg[-1] + 1))
+            size = _regime_size(N, rg)
             ns = max(1, min(nshards, size // 64))
             for s in range(ns):
                 t = {"backend": be, "N": N, "regime": list(rg), "shard": s,
@@ -25,9 +40,32 @@ def regime_tasks(N, regimes, backends, nshards=NSHARDS, extra=None):
 
 def iter_task_states(task):
     rg = task["regime"]
+    if rg[0] == "near":
+        return _iter_near(task["N"], rg[-2], rg[-1], task["shard"], task["nshards"])
     d = rg[1] if rg[0] == "bounded" else None
     return lattice.iter_states(task["N"], rg[-2], rg[-1], d,
                                task["shard"], task["nshards"])
+
+
+def _iter_near(N, Lmin, Lmax, shard, nshards):
+    """states of the near-tie regime: k is encoded as -L (negative clock)"""
+    from itertools import product
+    idx = 0
+    for L in range(Lmin, Lmax + 1):
+        npts = len(near_grid(L))
+        ms = sorted(range(1 << npts), key=lambda m: (lattice.popcount(m), m))
+        for combo in product(ms, repeat=N):
+            if idx % nshards == shard:
+                yield -L, combo
+            idx += 1
+
+
+def trains_edges(k, masks):
+    """explicit float trains and edges of a state (lattice or near-tie grid)"""
+    if k < 0:
+        G = near_grid(-k)
+        return [[G[i] for i in lattice.ticks(m)] for m in masks], [G[0], G[-1]]
+    return [lattice.times(m) for m in masks], lattice.edges(k)
 
 
 def describe_regimes(regimes, N):
@@ -35,10 +73,13 @@ def describe_regimes(regimes, N):
     total = 0
     for rg in regimes:
         d = rg[1] if rg[0] == "bounded" else None
-        n = sum(lattice.count_states(N, k, d) for k in range(rg[-2], rg[-1] + 1))
+        n = _regime_size(N, rg)
         total += n
-        out.append({"regime": rg[0], "max_spikes_per_train": d, "N": N,
-                    "clock_min": rg[-2], "clock_max": rg[-1], "states": n})
+        e = {"regime": rg[0], "max_spikes_per_train": d, "N": N,
+             "clock_min": rg[-2], "clock_max": rg[-1], "states": n}
+        if rg[0] == "near":
+            e["grid_points"] = {L: near_grid(L) for L in range(rg[-2], rg[-1] + 1)}
+        out.append(e)
     return out, total
 
 
@@ -68,8 +109,8 @@ def classes(trains, ts, te):
 
 def state_case(k, masks):
     """JSON-able description of a lattice state as explicit floats."""
-    return {"trains": [lattice.times(m) for m in masks],
-            "edges": lattice.edges(k), "clock": k, "masks": list(masks)}
+    tr, ed = trains_edges(k, masks)
+    return {"trains": tr, "edges": ed, "clock": k, "masks": list(masks)}
 
 
 def nspikes(masks):
@@ -83,7 +124,7 @@ def run_states(task, fn, prop):
         r.states += 1
         r.transitions += 1
         if lattice.nontrivial(masks):
-            r.sigs.add(lattice.signature(k, masks))
+            r.sigs.add(lattice.signature(abs(k) * 3 if k < 0 else k, masks))
         try:
             fn(r, k, masks, task)
         except Exception as e:
